@@ -81,7 +81,8 @@ def mk_kwargs(cls, off, i):
     """Row i of the contents palette for this class: a dict prop -> value."""
     props = cls._item_class()._props
     kw = {}
-    for k, (dt, default) in props.items():
+    for j, (k, (dt, default)) in enumerate(props.items()):
+        # odd rows get a value that differs from the default AND from every other property's value (1 + position of the property)
         if k == "offset":
             kw[k] = off
         elif k == "column":
@@ -95,11 +96,11 @@ def mk_kwargs(cls, off, i):
         elif isinstance(default, bool):
             kw[k] = bool(i % 2)
         elif isinstance(default, int) and dt in ("int", int):
-            kw[k] = default + (i % 2)
+            kw[k] = default + (i % 2) * (1 + j)
         elif isinstance(default, float):
-            kw[k] = default + 0.5 * (i % 2)
+            kw[k] = default + 0.5 * (i % 2) * (1 + j)
         elif isinstance(default, str):
-            kw[k] = default if i % 2 == 0 else f"s{i}"
+            kw[k] = default if i % 2 == 0 else f"s{i}_{k}"
         elif isinstance(default, bytes):
             kw[k] = default if i % 2 == 0 else b"0" + bytes([65 + i])
         elif isinstance(default, list):
